@@ -25,6 +25,7 @@ LEVEL_TEXT = (
     "are not decided."
     ' Included from C08: a loss class that overrides compute_loss must keep the base pipeline order (filters before aggregation), and values returned by user-supplied callables (moment calculators) are not modified in place.'
     ' Per-coordinate callables built in a loop / comprehension must not capture the iteration variable late (shared with C08).'
+    " Formula rules withhold a mismatch (undecided) when the function now calls something its reference version never mentioned - the normal form may simply not open the new idiom."
 )
 TECHNIQUE = "option-plumbing dataflow + rational normal forms against a published-formula table (path-sensitive forward substitution for MSM and the likelihood pipeline) + radix/alphabet rule"
 
